@@ -287,6 +287,17 @@ def rule_algebra(ck):
             ok = bool(adds) and all(any(k.arg == "fill_value" and isinstance(k.value, ast.Constant) and k.value.value == 0 for k in c.keywords) for c in adds)
             ck.require(ok, "C12.R5", m, adds[0] if adds else op, ok="stations missing on one side count as 0", bad=f"{op} does not zero-fill stations absent from one operand (NaN coefficients)",
                        sink=f"algebra:{op}:fill")
+        # coefficients are combined by station *name*: no operand is turned into a positional array on the way into the result
+        POSITIONAL = {"to_numpy", "tolist", "to_list"}
+        for r in [n for n in cfg.nodes if n.kind == "return" and n.expr is not None]:
+            for e in alts_deep(fl.expand(r.expr, r)):
+                bad = [x for x in ast.walk(e) if (isinstance(x, ast.Call) and isinstance(x.func, ast.Attribute) and x.func.attr in POSITIONAL) or
+                       (isinstance(x, ast.Attribute) and x.attr in ("values", "array", "iloc") and not isinstance(getattr(x, "ctx", None), ast.Store)
+                        and dotted(x.value) in ("self", m.params[1] if len(m.params) > 1 else "other")) or
+                       (isinstance(x, ast.Call) and call_name(x) in ("asarray", "array") and x.args and dotted(x.args[0]) in ("self", m.params[1] if len(m.params) > 1 else "other"))]
+                ck.require(not bad, "C12.R5", m, r.stmt, ok="operands stay label-indexed up to the result",
+                           bad=f"{op} combines coefficients positionally (`{src(bad[0], 50) if bad else ''}`): operands listing the same stations in a different order are "
+                               f"added entry by entry, not station by station", sink=f"algebra:{op}:positional")
     # constructor: list of ids -> coefficient 1 each
     init = cur.methods.get("__init__")
     if init is None:
